@@ -1,7 +1,7 @@
 (** Lemmas for C12: iterations run in order and stop only when the callback says so. *)
 From Coq Require Import ZArith NArith List Bool Lia Reals.
 From Flocq Require Import Core BinarySingleNaN.
-From HepMC Require Import Num NumB NumR Result Accum VegasPdf Discrete MultiChannel Helper Iter Chkpt Callback Run Lemmas_Run.
+From HepMC Require Import Num NumB NumR Translated Result Accum VegasPdf Discrete MultiChannel Helper Iter Chkpt Callback Run Lemmas_Run.
 Import ListNotations.
 
 (** ** the protocol, for any integrator (any checkpoint type, iteration function, callback) *)
@@ -72,12 +72,12 @@ Section Decide.
 
   (* target precision zero (or anything not above zero): never stop, whatever the results are *)
   Lemma decide_no_target target rs : ltb K (zero K) target = false -> decide target rs = true.
-  Proof. intros H. unfold decide. rewrite H. reflexivity. Qed.
+  Proof. intros H. unfold decide, Translated.perform_more_iterations. rewrite H. reflexivity. Qed.
 
   (* positive target: stop exactly when the combined relative error is <= target *)
   Lemma decide_target target rs : ltb K (zero K) target = true ->
     decide target rs = negb (leb K (rel_err_all rs) target).
-  Proof. intros H. unfold decide. rewrite H. reflexivity. Qed.
+  Proof. intros H. unfold decide, Translated.perform_more_iterations. rewrite H. reflexivity. Qed.
 End Decide.
 
 Lemma ltb_zero_zero_B prec emax H1 H2 :
